@@ -83,7 +83,19 @@ type ReplayFile struct {
 	Expect   Violation         `json:"expect"`
 	Trace    []string          `json:"trace,omitempty"`
 	Original int               `json:"original_choices"`
+	// Warmup: the worker process that found the violation had executed runs Worker, Worker+Workers, ... < Run
+	// of the same seed before it.  A replay that shows nothing in a fresh process is repeated after those
+	// runs: code under test that keeps state in process memory (a cache, a counter) across independent
+	// histories is then reproduced faithfully.
+	Warmup *WarmupSpec `json:"warmup,omitempty"`
 }
+
+type WarmupSpec struct {
+	Workers int `json:"workers"`
+	Worker  int `json:"worker"`
+}
+
+var curWarmup *WarmupSpec
 
 type workerResult struct {
 	Worker     int               `json:"worker"`
@@ -285,6 +297,7 @@ func doWorker(e Engine, property, tier string, seed uint64, cfg map[string]strin
 		defer dump.Flush()
 	}
 	seenClass := map[string]bool{}
+	curWarmup = &WarmupSpec{Workers: workers, Worker: worker}
 	for i := worker; i < runs; i += workers {
 		if time.Since(start) > time.Duration(budget)*time.Second {
 			break
@@ -390,7 +403,11 @@ func minimiseAndWrite(e Engine, r *Run, v *Violation, cfg map[string]string, kno
 	bestTrace := r.Trace
 	bestMarks := r.Marks
 	bestRec := r.Rec
-	deadline := time.Now().Add(60 * time.Second)
+	budget := 60 * time.Second
+	if v, err := strconv.Atoi(os.Getenv("VERIF_MINIMISE_S")); err == nil && v > 0 {
+		budget = time.Duration(v) * time.Second // e.g. sensitivity sweeps that only need the verdict
+	}
+	deadline := time.Now().Add(budget)
 	tries := 0
 	// try executes a candidate; it is kept only if the same violation class recurs AND the candidate
 	// is an improvement (shorter consumed list, or same length with a smaller value sum, or - for the
@@ -547,7 +564,7 @@ func minimiseAndWrite(e Engine, r *Run, v *Violation, cfg map[string]string, kno
 		labels = append(labels, c.String())
 	}
 	rf := ReplayFile{Engine: e.Name(), Property: r.Property, Tier: r.Tier, Seed: r.Seed, Run: r.Index, Cfg: cfg,
-		Choices: best, Labels: labels, Expect: *bestV, Trace: bestTrace, Original: len(orig)}
+		Choices: best, Labels: labels, Expect: *bestV, Trace: bestTrace, Original: len(orig), Warmup: curWarmup}
 	dir := filepath.Join(verifRoot(), "replays")
 	os.MkdirAll(dir, 0o755)
 	path := filepath.Join(dir, fmt.Sprintf("%s-%d-%d.json", r.Property, r.Seed, r.Index))
@@ -574,21 +591,46 @@ func doReplay(e Engine, path string) int {
 	attempts := e.Describe(rf.Property).ReplayAttempts
 	var r *Run
 	var v *Violation
-	for i := 1; ; i++ {
-		r = newRun(NewReplayStream(rf.Choices), rf.Seed, rf.Run, rf.Property, rf.Tier, rf.Cfg, known)
-		r.KeepLog = *fFullLog
-		r.MaxDraws = 2000000
-		var fatal string
-		v, fatal = safeExecute(e, r)
-		if fatal != "" {
-			fmt.Fprintln(os.Stderr, fatal)
-			return 2
-		}
-		if v != nil || i >= attempts {
-			if attempts > 1 {
-				fmt.Printf("repetition %d of at most %d (the property quantifies over repeated executions)\n", i, attempts)
+	replayOnce := func() int {
+		for i := 1; ; i++ {
+			r = newRun(NewReplayStream(rf.Choices), rf.Seed, rf.Run, rf.Property, rf.Tier, rf.Cfg, known)
+			r.KeepLog = *fFullLog
+			r.MaxDraws = 2000000
+			var fatal string
+			v, fatal = safeExecute(e, r)
+			if fatal != "" {
+				fmt.Fprintln(os.Stderr, fatal)
+				return 2
 			}
-			break
+			if v != nil || i >= attempts {
+				if attempts > 1 {
+					fmt.Printf("repetition %d of at most %d (the property quantifies over repeated executions)\n", i, attempts)
+				}
+				return 0
+			}
+		}
+	}
+	if rc := replayOnce(); rc != 0 {
+		return rc
+	}
+	if v == nil && rf.Warmup != nil && rf.Warmup.Workers > 0 && uint64(rf.Warmup.Worker) < rf.Run {
+		// nothing in a fresh process: execute what the finding process had executed before, then replay again
+		n := 0
+		for i := uint64(rf.Warmup.Worker); i < rf.Run; i += uint64(rf.Warmup.Workers) {
+			wr := newRun(NewRandomStream(rf.Seed, i), rf.Seed, i, rf.Property, rf.Tier, rf.Cfg, known)
+			wr.MaxDraws = 2000000
+			if _, fatal := safeExecute(e, wr); fatal != "" {
+				fmt.Fprintln(os.Stderr, fatal)
+				return 2
+			}
+			n++
+		}
+		if rc := replayOnce(); rc != 0 {
+			return rc
+		}
+		if v != nil {
+			fmt.Printf("WARM-PROCESS: not reproduced in a fresh process, reproduced after the %d independent runs the finding process had executed before it (seed %d, runs %d, %d, ... < %d): the code under test keeps state in process memory across histories\n",
+				n, rf.Seed, rf.Warmup.Worker, rf.Warmup.Worker+rf.Warmup.Workers, rf.Run)
 		}
 	}
 	if *fFullLog {
